@@ -13,7 +13,7 @@
      forall C st ops, run (m_step C) st ops = run s_step st ops
    is now proved without any guard (C10_run_refines), for every class and every history of any length.          *)
 From Coq Require Import ZArith List Lia Bool.
-From SM Require Import Model.C10_PyList Model.C10_SMList.
+From SM Require Import Model.C10_PyList Model.C10_SMList Model.C10_World.
 Import ListNotations.
 Open Scope Z_scope.
 
@@ -188,3 +188,51 @@ Proof.
   - eapply py_pop_length; eassumption.
 Qed.
 Print Assumptions C10_lengths.
+
+(* ---- reversed(x): Sequence.__reversed__ through __getitem__ yields the elements in reverse order, all lengths *)
+Theorem C10_reversed : forall C st, m_step C st IterRev = (st, Ok (Objs (map (fun t => [t]) (rev st)))).
+Proof. intros. cbn [m_step]. rewrite m_reversed_spec. reflexivity. Qed.
+Print Assumptions C10_reversed.
+
+(* ==== several live objects and iterators (Model/C10_World.v): ownership of results, iteration protocol ==== *)
+
+(* the generator of Sequence.__iter__ and the list iterator produce the same item / end at the same position,
+   for every list and every position an iterator can reach *)
+Theorem C10_iterator_next : forall st i, 0 <= i -> m_next st i = s_next st i.
+Proof. exact next_agree. Qed.
+Print Assumptions C10_iterator_next.
+
+(* histories of ANY length over any number of objects and iterators -- operations addressed to the receiver, to earlier
+   results (items, slices, popped values, constructed copies), iter() and next() in any interleaving: every output and
+   every object's final state equal those of Python lists and list iterators *)
+Theorem C10_world_refines : forall C ops w, wf w -> wrun (wm_step C) w ops = wrun ws_step w ops.
+Proof. exact wrun_refines. Qed.
+Print Assumptions C10_world_refines.
+
+Corollary C10_world_refines_from_start : forall C ops n, wrun (wm_step C) (wstart n) ops = wrun ws_step (wstart n) ops.
+Proof. intros. apply wrun_refines. constructor. Qed.
+Print Assumptions C10_world_refines_from_start.
+
+(* RESULTS SHARE NO STATE WITH THE RECEIVER: an operation changes no object other than the one it is applied to (a
+   constructor and an iterator step change none); every object-valued result is a new object, appended to the store *)
+Theorem C10_results_are_independent : forall C w a u, (u < length (objs w))%nat -> target a <> Some u ->
+  nth_error (objs (fst (wm_step C w a))) u = nth_error (objs w) u /\
+  (length (objs w) <= length (objs (fst (wm_step C w a))))%nat.
+Proof. intros C w a u Hu Ht. split; [apply frame; assumption | apply objs_grow]. Qed.
+Print Assumptions C10_results_are_independent.
+
+(* two iterators over the same object are independent *)
+Theorem C10_iterators_independent : forall C w j k, j <> k -> (j < length (its w))%nat ->
+  nth_error (its (fst (wm_step C w (ItNext j)))) k = nth_error (its w) k.
+Proof. intros. apply iterators_independent; assumption. Qed.
+Print Assumptions C10_iterators_independent.
+
+(* non-vacuity: x[0] of a single-valued object is a new object -- appending to it leaves x alone;
+   zip(x, x) pairs every item with itself; an exhausted iterator stays exhausted after the object grows *)
+Example C10_world_ex :
+  objs (fst (wrun (wm_step SE3like) (wstart 1) [On 0 (GetItem 0); On 1 (Append (Same [9]))])) = [[1]; [1; 9]] /\
+  snd (wrun (wm_step SE3like) (wstart 2) [ItNew 0; ItNew 0; ItNext 0; ItNext 1; ItNext 0; ItNext 1; ItNext 0; ItNext 1])
+    = [Ok NoneV; Ok NoneV; Ok (Obj [1]); Ok (Obj [1]); Ok (Obj [2]); Ok (Obj [2]); Raise StopIteration; Raise StopIteration] /\
+  snd (wrun (wm_step SE3like) (wstart 1) [ItNew 0; ItNext 0; ItNext 0; On 0 (Append (Same [7])); ItNext 0])
+    = [Ok NoneV; Ok (Obj [1]); Raise StopIteration; Ok NoneV; Raise StopIteration].
+Proof. vm_compute. repeat split. Qed.
